@@ -61,10 +61,10 @@ def verus_unit_step(vspec_name):
             if f['obligation'] in seen:
                 continue
             seen.add(f['obligation'])
-            rep.violation('verus:%s:%s:%s' % (res['unit'], f['function'], f['kind']), f['obligation'],
+            if rep.violation('verus:%s:%s:%s' % (res['unit'], f['function'], f['kind']), f['obligation'],
                           dict(unit=res['unit'], function=f['function'], kind=f['kind'], clause=f['clause'], verus_output=f['verus_output'],
-                               note='label arithmetic is decided by Verus (unbounded distances); the bounded label rows of the thorough tier give concrete counterexamples'), False)
-            nviol += 1
+                               note='label arithmetic is decided by Verus (unbounded distances); the bounded label rows of the thorough tier give concrete counterexamples'), False):
+                nviol += 1
         cov['discharged'] += res['obligations'] - len(seen)
         return nviol
     return step
